@@ -13,6 +13,29 @@ def triples : List Nat → List (Nat × Nat × Nat)
 def fSamples (ss : List (Nat × (Float × Float))) : String :=
   " ".intercalate (ss.map fun s => s!"{s.1} {fF s.2.1} {fF s.2.2}")
 
+/-- ragged rows: each row is `<len> c…` -/
+def rowsOfFuel : Nat → List String → List (List Float)
+  | 0, _ => []
+  | _, [] => []
+  | fuel + 1, k :: t => (t.take (pN k)).map pF :: rowsOfFuel fuel (t.drop (pN k))
+
+def rowsOf (ts : List String) : List (List Float) := rowsOfFuel ts.length ts
+
+/-- `nvox` voxels, each `<nv> verts… <nt> tris…`; returns the voxels and the remaining tokens -/
+def voxelsOf : Nat → List String → List (List (Float × Float) × List (Nat × Nat × Nat)) × List String
+  | 0, ts => ([], ts)
+  | k + 1, nv :: rest =>
+    let nv := pN nv
+    let verts := pairs ((rest.take (2 * nv)).map pF)
+    match rest.drop (2 * nv) with
+    | nt :: rest =>
+      let nt := pN nt
+      let tris := triples ((rest.take (3 * nt)).map pN)
+      let r := voxelsOf k (rest.drop (3 * nt))
+      ((verts, tris) :: r.1, r.2)
+    | [] => ([], [])
+  | _ + 1, [] => ([], [])
+
 /-- protocol:
   geom pi x0 y0 x1 y1 …            → ok cw area (c cx cy | z) volume  | TypeError | ValueError
   norm x0 y0 …                     → normalised vertex list
@@ -21,6 +44,8 @@ def fSamples (ss : List (Nat × (Float × Float))) : String :=
   pick total u c0 c1 …             → pickTriangle
   cum nv verts… nt tris…           → total_area cum…
   emis nv verts… nt tris… N c0 c1 c2 c3 nu us…  → ok est (tri px pz)* | err msg k (tri px pz)*
+  rows k0 c… k1 c… …               → ok x0 y0 … (stored list) | TypeError | ValueError      (mkVoxelRows)
+  emiss N c0 c1 c2 c3 nvox (nv verts… nt tris…)* nu us…  → ok e0 e1 … | err msg     (emissivities)
 -/
 def step (ts : List String) : String :=
   match ts with
@@ -68,6 +93,17 @@ def step (ts : List String) : String :=
           s!"err {e} {ss.length} {fSamples ss}"
       | _ => "bad-op"
     | _ => "bad-op"
+  | "rows" :: rest =>
+    match mkVoxelRows (rowsOf rest) with
+    | .error e => e
+    | .ok l => "ok " ++ fFs (l.flatMap fun p => [p.1, p.2])
+  | "emiss" :: n :: c0 :: c1 :: c2 :: c3 :: nvox :: rest =>
+    let (c0, c1, c2, c3) := (pF c0, pF c1, pF c2, pF c3)
+    let f : Float → Float → Float := fun x z => c0 + c1 * x + c2 * z + c3 * x * z
+    let (vox, rest) := voxelsOf (pN nvox) rest
+    match emissivities Float.sqrt f vox (pN n) ((rest.drop 1).map pF) with
+    | .ok es => "ok " ++ fFs es
+    | .error e => s!"err {e}"
   | "hist" :: act :: nv :: rest =>
     -- hist <active: -1 = all | i> <nv> v0 … <ops…>   ops: A | S i | U | P | X i b
     let nv := pN nv
